@@ -315,7 +315,7 @@ theorem Inv.replace {y : Sys} (h : Inv y) {c c' : Client} (hc : c ∈ y.clients)
     rw [this]; exact h.cbuf e' he'
 
 theorem Inv.next {y : Sys} (h : Inv y) (id : Nat) : Inv (next y id).1 := by
-  unfold CV.Stream.next
+  unfold CV.Stream.next CV.Stream.nextWith
   cases hg : getClient y id with
   | none => exact h
   | some c =>
